@@ -11,11 +11,11 @@ import (
 )
 
 type fn struct {
-	id    string
-	name  string
-	src   string
-	small []string
-	tags  []string
+	id     string
+	name   string
+	src    string
+	small  []string
+	tags   []string
 	reject string
 }
 
@@ -142,6 +142,7 @@ func Subset(level int) []*tv.Package {
 		"type Pt struct {\n\tX uint64\n\tY uint64\n}",
 		"type Rec struct {\n\tA uint64\n\tB uint32\n\tC byte\n\tD bool\n\tP Pt\n}",
 		"type Box struct {\n\tV uint64\n\tS []uint64\n\tN *Pt\n}",
+		"type Wrap struct {\n\tR Rec\n\tN uint64\n}",
 		"type Num uint64",
 		"type Set map[uint64]bool",
 		"type Tab map[string]uint64",
@@ -338,6 +339,15 @@ func genData(b *builder, level int) {
 	b.add("data/struct/copy-is-independent", "func FN(x uint64) uint64 {\n\tvar a Pt\n\ta.X = x\n\tb := a\n\ta.X = 1\n\treturn b.X\n}")
 	b.add("data/struct/nested-field", "func FN(r Rec) uint64 {\n\treturn r.A + uint64(r.B) + uint64(r.C) + r.P.X\n}")
 	b.add("data/struct/nested-literal", "func FN(x uint64) Rec {\n\treturn Rec{A: x, P: Pt{X: x + 1}, D: true}\n}")
+	// l-values inside struct values nested in a struct: the base of the reference is itself a field
+	// reference (never a loaded copy of the enclosing struct)
+	b.add("data/struct/nested-field-ref-through-ptr", "func FN(r *Rec, x uint64) uint64 {\n\tq := &r.P.Y\n\t*q = x\n\treturn r.P.Y + r.P.X\n}")
+	b.add("data/struct/nested-field-ref-in-var", "func FN(x uint64) uint64 {\n\tvar r Rec\n\tq := &r.P.X\n\t*q = x\n\t*q = *q + 1\n\treturn r.P.X + r.P.Y\n}")
+	b.add("data/struct/nested-assign-through-ptr", "func FN(r *Rec, x uint64) uint64 {\n\tr.P.X = x\n\treturn r.P.X + r.A\n}")
+	b.add("data/struct/nested-assign-in-var", "func FN(x uint64) uint64 {\n\tvar r Rec\n\tr.P.Y = x\n\tr.A = 2\n\treturn r.P.Y + r.A + r.P.X\n}")
+	b.add("data/struct/nested-three-deep", "func FN(w *Wrap, x uint64) uint64 {\n\tw.R.P.X = x\n\tq := &w.R.P.Y\n\t*q = x + 1\n\tw.N = 3\n\treturn w.R.P.X + w.R.P.Y + w.R.A + w.N\n}")
+	b.add("data/struct/nested-three-deep-var", "func FN(x uint64) uint64 {\n\tvar w Wrap\n\tw.R.P.X = x\n\tq := &w.R.A\n\t*q = 5\n\treturn w.R.P.X + w.R.A\n}")
+	b.add("data/struct/nested-copy-out-is-independent", "func FN(r *Rec, x uint64) uint64 {\n\tp := r.P\n\tr.P.X = x\n\treturn p.X + r.P.X\n}")
 	b.add("data/struct/ptr-literal", "func FN(x uint64) uint64 {\n\tp := &Pt{X: x, Y: 2}\n\tp.Y += p.X\n\treturn p.Y\n}")
 	b.add("data/struct/new", "func FN(x uint64) uint64 {\n\tp := new(Pt)\n\tp.X = x\n\treturn p.X + p.Y\n}")
 	b.add("data/struct/deref-copy", "func FN(p *Pt) Pt {\n\tq := *p\n\tp.X = 99\n\treturn q\n}")
